@@ -19,11 +19,11 @@ type ruleOp struct {
 
 type ruleSpec struct {
 	ID      string   `json:"id"`
-	Chain   []ruleOp `json:"chain"`   // [0] is the chain starter
-	Before  []string `json:"before"`  // comment / blank lines in front of the rule
-	Inside  bool     `json:"inside"`  // a comment line that mentions SecRule sits inside the chain
-	Trail   string   `json:"trail"`   // white space after `" \` on operator lines
-	Actions []string `json:"actions"` // extra actions after the id line
+	Chain   []ruleOp `json:"chain"`         // [0] is the chain starter
+	Before  []string `json:"before"`        // comment / blank lines in front of the rule
+	Inside  bool     `json:"inside"`        // a comment line that mentions SecRule sits inside the chain
+	Trail   string   `json:"trail"`         // white space after `" \` on operator lines
+	Actions []string `json:"actions"`       // extra actions after the id line
 	Sep     string   `json:"sep,omitempty"` // white space between the directive name and the variables (default one blank)
 }
 
@@ -37,6 +37,7 @@ type rulesCase struct {
 	TargetK  int               `json:"target_k"`
 	Lane     string            `json:"lane"`
 	Prefix   string            `json:"prefix,omitempty"` // three-digit file prefix, default 932
+	Twin     string            `json:"twin,omitempty"`   // a second entry of rules/ whose name matches the pattern of the rules file (a copy of it)
 }
 
 func (c *rulesCase) prefix() string {
@@ -204,6 +205,10 @@ func rulesGen(r *rand.Rand, lane string) *rulesCase {
 	if core.Chance(r, 1, 4) {
 		c.Target += ".ra"
 	}
+	if core.Chance(r, 1, 10) {
+		// an editor's auto-save copy, a stale copy, a backup: names that sort before and behind the rules file
+		c.Twin = core.Pick(r, "#REQUEST-932-APPLICATION-ATTACK-RCE.conf#", "OLD-932-RCE.conf.orig", "REQUEST-932-APPLICATION-ATTACK-RCE.conf.orig", "A-932-copy.txt")
+	}
 	return c
 }
 
@@ -217,6 +222,9 @@ func (c *rulesCase) tree() sut.Tree {
 	}
 	for k, s := range c.Sources {
 		t["regex-assembly/"+k+".ra"] = s
+	}
+	if c.Twin != "" {
+		t["rules/"+c.Twin] = content
 	}
 	return t
 }
@@ -242,7 +250,10 @@ func (c *rulesCase) targetValid() (bool, string) {
 }
 
 // c11All: update --all on a tree whose assembly files are all valid targets: every addressed operand, and nothing else, changes.
-func c11All(env *core.Env, c *rulesCase) core.Verdict {
+func c11All(env *core.Env, c0 *rulesCase) core.Verdict {
+	all := *c0
+	all.Twin = "" // the ambiguous rules file is exercised by the single-target cases
+	c := &all
 	root := emptyRoot(env)
 	defer rmCase(root)
 	if err := c.tree().Write(root); err != nil {
@@ -329,6 +340,19 @@ func c11Check(env *core.Env, cc core.Case) core.Verdict {
 		}
 		return v
 	}
+	if c.Twin != "" {
+		// two entries of rules/ match the pattern of the rules file: refusing (and changing nothing) is right; if the
+		// command goes ahead it must still update the rules file and nothing else
+		v.Features = append(v.Features, "second-file-matches-pattern")
+		if u.Exit != 0 {
+			if d := sut.Diff(before, after); len(d) > 0 {
+				return core.Viol("refused-but-wrote", "update %s failed (two files match the rules file pattern) but changed %v", c.Target, d)
+			}
+			v.Nontrivial = true
+			v.Counts["ambiguous_rules_file_refused"] = 1
+			return v
+		}
+	}
 	if u.Exit != 0 {
 		return core.Viol("update-fails", "update %s failed on a valid target: %s\nrules file=%s", c.Target, describe(u), core.Q(orig))
 	}
@@ -382,7 +406,9 @@ func c12Check(env *core.Env, cc core.Case) core.Verdict {
 	if w.Proj != nil {
 		return c12AllCheck(env, w)
 	}
-	c := w.Single
+	single := *w.Single
+	single.Twin = "" // the ambiguous rules file is C11's business
+	c := &single
 	valid, _ := c.targetValid()
 	if !valid {
 		return core.Verdict{Status: core.Skipped}
@@ -492,6 +518,27 @@ func c12AllCheck(env *core.Env, w *c12Case) core.Verdict {
 	u := cli(env, root, nil, "regex", "update", "--all")
 	if u.Exit != 0 {
 		return core.Viol("update-all-fails", "update --all failed on a valid tree: %s", describe(u))
+	}
+	// every rule on its own, in a fresh process: the stored operand is what generate prints, compare agrees
+	for _, t := range targets {
+		file, _ := sut.Read(root, t.File.path())
+		_, pos := t.File.render(nil)
+		ls := strings.Split(file, "\n")
+		stored, ok := "", false
+		if pos[t.Key] < len(ls) {
+			stored, ok = operandOf(strings.TrimRight(ls[pos[t.Key]], "\r"))
+		}
+		g := cli(env, root, nil, "regex", "generate", t.Key)
+		if g.Exit != 0 {
+			return core.Viol("generate-fails-after-update-all", "generate %s fails after a successful update --all: %s", t.Key, describe(g))
+		}
+		if !ok || stored != string(g.Stdout) {
+			return core.Viol("stored-differs-from-generate:all", "after update --all rule %s stores %s, generate %s prints %s", t.Key, core.Q(stored), t.Key, core.Q(string(g.Stdout)))
+		}
+		if sc := cli(env, root, nil, "-o", "github", "regex", "compare", t.Key); sc.Exit != 0 {
+			return core.Viol("compare-after-update-all", "compare %s fails right after update --all: %s", t.Key, describe(sc))
+		}
+		v.Counts["single_rule_round_trips"]++
 	}
 	textBefore := ""
 	for _, mode := range [][]string{nil, {"-o", "github"}} {
